@@ -29,8 +29,8 @@ func (c rCard) build() vcard.Card {
 	return out
 }
 
-var c07Tests = []carddav.FilterTest{"", carddav.FilterAnyOf, carddav.FilterAllOf, "bogus"}
-var c07Types = []carddav.MatchType{"", carddav.MatchEquals, carddav.MatchContains, carddav.MatchStartsWith, carddav.MatchEndsWith, "bogus"}
+var c07Tests = []carddav.FilterTest{"", carddav.FilterAnyOf, carddav.FilterAllOf, "bogus", "AllOf", "ANYOF"}
+var c07Types = []carddav.MatchType{"", carddav.MatchEquals, carddav.MatchContains, carddav.MatchStartsWith, carddav.MatchEndsWith, "bogus", "Equals"}
 var c07Texts = []string{"alice", "ali", ".com", "bob", ""}
 var c07Values = []string{"alice", "alice@example.com", "bob", ""}
 
@@ -557,7 +557,8 @@ func c07Run(r *engine.Run) {
 	}
 	gen(nil, 0)
 	var reqs []carddav.AddressDataRequest
-	reqs = append(reqs, carddav.AddressDataRequest{}, carddav.AddressDataRequest{AllProp: true}, carddav.AddressDataRequest{AllProp: true, Props: []string{"FN"}})
+	reqs = append(reqs, carddav.AddressDataRequest{}, carddav.AddressDataRequest{AllProp: true}, carddav.AddressDataRequest{AllProp: true, Props: []string{"FN"}},
+		carddav.AddressDataRequest{Props: []string{}}, carddav.AddressDataRequest{Props: make([]string, 0, 4)})
 	names := []string{"FN", "EMAIL", "X-NONE"}
 	for m := 1; m < 8; m++ {
 		var ps []string
